@@ -294,8 +294,40 @@ def cli_case(case, env):
     check_json(case, env, data, path, [], "json")
     check_json(case, env, data, path, ["-C1"], "json-context")
     check_json(case, env, data, path, ["--passthru"], "json-passthru")
+    check_line_history(case, env, data, path)
     env.sample({"argv": ["rg", "-n", "-b", "--column"] + case["args"] + sum([["-e", p] for p in case["patterns"]], []),
                 "input": case["input"][:100]})
+
+
+def check_line_history(case, env, data, path):
+    """line mode: what is printed for f.txt does not depend on the file the
+    same searcher went through before it - in particular not when that search
+    was stopped early (-m1) with unread bytes left in its buffer (the earlier
+    file has no final terminator and is larger than one buffer)"""
+    rep = env.rep
+    pats = sum([["-e", p] for p in case["patterns"]], [])
+    fargs = ["-a", "--no-config", "--color", "never", "--no-heading", "-H", "-n", "-b", "--column", "-m1"] + case["args"]
+    lead = data[: max(1, len(data) // 2)].rstrip(b"\r\n")
+    big = (lead + b"\n") * (1 + 70000 // (len(lead) + 1)) + lead
+    env.write("a_first.txt", big)
+    rep["evaluations"] += 2
+    alone = common.run_rg(fargs + pats + [path], env.tmp, env.home)
+    both = common.run_rg(fargs + ["-j1", "--no-mmap"] + pats + ["a_first.txt", path], env.tmp, env.home)
+    if alone is None or both is None:
+        env.inconclusive("watchdog")
+        return
+    env.count("rg_runs", 2)
+    if alone[0] == 2 or both[0] == 2:
+        return
+    def recs(out):
+        return [ln for ln in out.split(b"\n") if ln.startswith(path.encode() + b":")]
+    a, b = recs(alone[1]), recs(both[1])
+    if a != b:
+        env.viol("C09:history-line-mode:results-depend-on-the-previous-file",
+                 "%s alone prints %s, after a stopped search of another file %s" % (
+                     path, esc(a[0][:100]) if a else "<nothing>", esc(b[0][:100]) if b else "<nothing>"),
+                 {"kind": "cli", "args": case["args"], "patterns": case["patterns"], "input": case["input"],
+                  "argv_both": fargs + ["-j1", "--no-mmap"] + pats + ["a_first.txt", path]})
 
 
 def check_ml_text(case, env, data, path):
